@@ -149,6 +149,8 @@ def run_check(ctx, prop, args, common, extract, leandrv):
         print(f"VIOLATION property={pid} replay={path} key={v.key} {v.what}")
         n += 1
         rc = 1
+    if ctx.broken and real:
+        common.write_replay(pid, ctx.seed, "broken", {"property": pid, "broken": ctx.broken})
     if ctx.broken and not real:
         path = common.write_replay(pid, ctx.seed, 0, {"property": pid, "broken": ctx.broken, "cases_tried": ctx.evaluations,
                                                       "note": "a proof obligation / extraction / correspondence no longer checks; no failing input was found"})
@@ -172,7 +174,7 @@ def run_check(ctx, prop, args, common, extract, leandrv):
         "rule": prop.get("rule", "distinct by sha1 of the model text / case; non-trivial per property module"),
         "samples": ctx.samples or ["<none>"],
         "stats": ctx.stats,
-        "broken_ties": ctx.broken,
+        "broken_ties": [{**b, "detail": b["detail"][:600]} for b in ctx.broken[:20]],
         "known_findings_hit": hit_known,
         "known_findings_reported": known_lines,
         "notes": ctx.notes[:20],
